@@ -524,8 +524,18 @@ fn monitors(cl: &mut Cluster, rep: &mut Report, trace: &[String]) -> bool {
     fine
 }
 
-fn gen_event(r: &mut Rng, cl: &Cluster, next_payload: &mut u64) -> Ev {
+/// `part`: network partition in force (group of each node); a message crosses only inside a group
+fn gen_event(r: &mut Rng, cl: &Cluster, next_payload: &mut u64, part: Option<&[u8]>) -> Ev {
     let n = cl.cfg.n;
+    if let Some(g) = part {
+        // deliver only messages whose endpoints are on the same side; elections and proposals anywhere
+        let ok: Vec<usize> = (0..cl.pool.len()).filter(|k| g[cl.pool[*k].0] == g[cl.pool[*k].1]).collect();
+        let x = r.below(100);
+        if x < 55 && !ok.is_empty() {
+            let k = if r.chance(7, 10) { ok[ok.len() - 1 - r.below(ok.len().min(6) as u64) as usize] } else { *r.pick(&ok) };
+            return Ev::Deliver(k, r.chance(4, 5), r.chance(3, 5));
+        }
+    }
     let leaders: Vec<usize> = (0..n).filter(|i| cl.node(*i).is_leader()).collect();
     let x = r.below(100);
     // no leader: mostly elect; leader present: mostly replicate / propose / deliver
@@ -749,13 +759,24 @@ fn run_schedule(cfg: Cfg, events: Option<Vec<Ev>>, nev: usize, r: &mut Rng, rep:
     let mut all_ok = true;
     let mut model_on = true;
     let total = events.as_ref().map_or(nev, Vec::len);
+    let partitioned = events.is_none() && r.chance(1, 2);
+    let mut part: Option<Vec<u8>> = None;
+    if partitioned {
+        rep.hit("schedule.partitioned");
+    }
     for step in 0..total {
         let ev = match &events {
             Some(es) => match &es[step] {
                 Ev::Deliver(k, g, e) if *k == usize::MAX => Ev::Deliver(cl.pool.len().saturating_sub(1), *g, *e),
                 e => e.clone(),
             },
-            None => gen_event(r, &cl, &mut payload),
+            None => {
+                // half of the schedules run under a partition that is re-drawn every ~25 events
+                if partitioned && step % 25 == 0 {
+                    part = if r.chance(1, 4) { None } else { Some((0..cl.cfg.n).map(|_| r.below(2) as u8).collect::<Vec<u8>>()) };
+                }
+                gen_event(r, &cl, &mut payload, part.as_deref())
+            }
         };
         let mut run = Run { rep, model, model_on };
         let ok = exec(&mut cl, &ev, &mut run, &mut trace, stream);
